@@ -183,6 +183,9 @@ func WorkerMain(args []string) int {
 	runtime.GOMAXPROCS(1)
 	debug.SetMaxStack(64 << 20)
 	debug.SetGCPercent(400)
+	// soft memory limit: near it the collector runs more often instead of letting the heap grow
+	// (16 workers share the machine; the sandbox has no memory limit of its own)
+	debug.SetMemoryLimit(2 << 30)
 	id, tier := args[0], args[1]
 	shard, _ := strconv.Atoi(args[2])
 	nshards, _ := strconv.Atoi(args[3])
@@ -507,6 +510,21 @@ func superviseShard(ck *Check, job Job, tier string, shard, nshards int, deadlin
 			tot.infra = append(tot.infra, fmt.Sprintf("worker for shard %d died outside a unit: %v: %s", shard, err, stderr.String()))
 			tot.mu.Unlock()
 			return
+		}
+		// SIGKILL that did not come from the watchdog came from outside (the kernel's out-of-memory
+		// killer, an operator): that says nothing about the library. The unit is skipped, the run is
+		// reported as not exhaustive, and no violation is raised.
+		if ee, ok := err.(*exec.ExitError); ok && atomic.LoadInt32(&hung) == 0 {
+			if ws, ok := ee.Sys().(syscall.WaitStatus); ok && ws.Signaled() && ws.Signal() == syscall.SIGKILL {
+				tot.mu.Lock()
+				tot.infra = append(tot.infra, fmt.Sprintf("worker for shard %d was killed from outside (SIGKILL, e.g. the kernel's out-of-memory killer) in unit %d; the unit is skipped", shard, cur))
+				tot.mu.Unlock()
+				skip = append(skip, strconv.Itoa(cur))
+				if crashes >= maxCrashesPerShard {
+					return
+				}
+				continue
+			}
 		}
 		kind := "process crash"
 		if atomic.LoadInt32(&hung) == 1 {
